@@ -1,7 +1,13 @@
 import CopVerif.Driver.Effects
-/-! Driver main for C20 (write-effect checker + plot model): `lake env lean --run Main/Effects.lean`. -/
-def main : IO Unit := CopVerif.IO.serve fun ws =>
-  match ws with
-  | "effects" :: rest => CopVerif.Driver.effects rest
-  | "plot" :: rest => CopVerif.Driver.plot rest
-  | _ => "bad-op"
+/-! Driver main for C20 (write-effect checker + plot model): `lake env lean --run Main/Effects.lean`.
+    The generated module is decoded once, here. -/
+def main : IO Unit := do
+  let m := CopVerif.Gen.Effects.module?
+  CopVerif.IO.serve fun ws =>
+    match ws with
+    | "effects" :: rest =>
+      match m with
+      | some m => CopVerif.Driver.effects m rest
+      | none => "bad-module"
+    | "plot" :: rest => CopVerif.Driver.plot rest
+    | _ => "bad-op"
